@@ -23,15 +23,21 @@ def program(name, lines, extra_files=None):
 # --- iterator pipelines with allocating callbacks --------------------------------------------------
 
 def pipes(r):
+    # in a third of the programs every pipeline is the root function of a freshly launched fiber and most sources are
+    # walks over maps (the entry of a step is held by the iterator alone)
+    roots = r.random() < 0.33
+
     def src():
         k = r.choice(['nums', 'strs', 'times', 'chars', 'nested', 'tuple', 'until', 'mapnum', 'mapnum'])
+        if roots and r.random() < 0.6:
+            k = 'mapnum'
         if k == 'mapnum':
             # a map iterator hands out a fresh [key, value] list per step that nothing but the iterator refers to
             # (number keys: the order of the walk is a function of the keys alone)
             walk = "{" + ", ".join("%d: %s" % (key, r.choice(["'mv%d'" % key, "['in${%d}']" % key, "%d" % key]))
                                    for key in r.sample(range(12), r.randint(0, 7))) + "}.iter()"
             # zipped, the entry of this step is held by the iterator alone while the other side advances and the pair is made
-            form = r.choice(["plain", "zip_left", "zip_right", "zip_self"])
+            form = r.choice(["plain", "plain", "plain", "plain", "zip_left", "zip_right", "zip_self"])
             if form == "zip_left":
                 return "%s.zip(%s)" % (walk, src())
             if form == "zip_right":
@@ -115,7 +121,7 @@ def pipes(r):
         if 'map(|x| { let y = [x]; || y })' in p:
             # closures print with their address, observe what they capture instead
             s = ("print(%s.map(|f| f()).list());" % p) if r.random() < 0.7 else ("print(%s.len());" % p)
-        if r.random() < 0.3:
+        if roots or r.random() < 0.1:
             # the pipeline runs as the root function of a freshly launched fiber: its stack is sized for that function alone,
             # so the first callback a native makes has to grow it (an allocation between the iterator's step and the callback)
             s = "if true { let fin = chan(1); launch (|| { %s fin <- 1; })(); <- fin; }" % s
